@@ -339,7 +339,7 @@ func crashApply(op string, raw json.RawMessage) interface{} {
 	for c := 0; c < a.Cycles; c++ {
 		d2, err := crashStartDaemon(dir, env)
 		if err != nil {
-			return map[string]interface{}{"error": "restart: " + err.Error()}
+			return map[string]interface{}{"restart_failed": err.Error(), "nontrivial": true}
 		}
 		time.Sleep(time.Duration(50+100*c) * time.Millisecond)
 		d2.kill()
@@ -360,7 +360,7 @@ func crashApply(op string, raw json.RawMessage) interface{} {
 	}
 	d3, err := crashStartDaemon(dir, env)
 	if err != nil {
-		return map[string]interface{}{"error": "restart: " + err.Error()}
+		return map[string]interface{}{"restart_failed": err.Error(), "nontrivial": true}
 	}
 	defer d3.kill()
 	// running commands are followed to completion: give them time, then look
